@@ -16,6 +16,7 @@ import (
 	"capnproto.org/go/capnp/v3/rpc"
 	"capnproto.org/go/capnp/v3/server"
 	rpccp "capnproto.org/go/capnp/v3/std/capnp/rpc"
+	"verifharness/lib"
 )
 
 // ---- C06-C09: one rpc.Conn talking to a scripted peer over an in-memory transport ----
@@ -892,6 +893,7 @@ func (e *rpcEnv) flush() string {
 			rest = append(rest, s)
 		}
 	}
+	sort.Strings(wire)
 	sort.Strings(rest)
 	return strings.Join(append(append(wire, deliv...), rest...), " ")
 }
@@ -1076,4 +1078,99 @@ func execRPC(f []string) string {
 		return execRPCScript(f[2], f[1] == "1")
 	}
 	return "bad-op"
+}
+
+// ---- generators ----
+
+// inboundScript: the peer drives the Conn (Bootstrap, Calls on exports and promised answers, Finish, Release,
+// application returns).  Only ops inside the Lean model's domain (M stream).
+func inboundScript(r *lib.Rng, n int) string {
+	var ops []string
+	nextQ := 0
+	var live []int      // answer ids in use (not finished)
+	var heldCalls int   // method-1 calls sent so far
+	exports := 1
+	ops = append(ops, "pB0")
+	live = append(live, 0)
+	nextQ = 1
+	pickLive := func() int {
+		if len(live) == 0 || r.Intn(8) == 0 {
+			return r.Intn(nextQ + 1)
+		}
+		return live[r.Intn(len(live))]
+	}
+	for i := 0; i < n; i++ {
+		switch t := r.Intn(20); {
+		case t < 2:
+			q := nextQ
+			if r.Intn(6) == 0 && len(live) > 0 {
+				q = live[r.Intn(len(live))] // id reuse: protocol violation
+			} else {
+				nextQ++
+			}
+			ops = append(ops, "pB"+strconv.Itoa(q))
+			live = append(live, q)
+		case t < 10:
+			q := nextQ
+			nextQ++
+			if r.Intn(12) == 0 && len(live) > 0 {
+				q = live[r.Intn(len(live))]
+			}
+			m := r.Pick(0, 0, 1, 1, 2, 3, 4)
+			tgt := ""
+			if r.Intn(3) == 0 {
+				tgt = "e" + strconv.Itoa(r.Intn(exports+1))
+			} else {
+				tgt = "a" + strconv.Itoa(pickLive())
+				if r.Intn(3) > 0 {
+					tgt += "." + strconv.Itoa(r.Pick(0, 0, 0, 1))
+				}
+			}
+			op := "pC" + strconv.Itoa(q) + ":" + tgt + ":" + strconv.Itoa(m)
+			if r.Intn(5) == 0 {
+				op += ":" + r.PickS("s3", "s3+s4", "n", "m5", "r0", "r9", "x1", "s3+r0")
+			}
+			ops = append(ops, op)
+			live = append(live, q)
+			if m == 1 {
+				heldCalls++
+			}
+			if m == 2 || m == 4 {
+				exports++
+			}
+		case t < 13:
+			if heldCalls == 0 {
+				continue
+			}
+			ops = append(ops, "aR"+strconv.Itoa(r.Intn(heldCalls))+":"+r.PickS("ok", "exc", "cap", "same"))
+			exports++
+		case t < 17:
+			q := pickLive()
+			ops = append(ops, "pF"+strconv.Itoa(q)+":"+strconv.Itoa(r.Intn(2)))
+			for j, x := range live {
+				if x == q {
+					live = append(live[:j], live[j+1:]...)
+					break
+				}
+			}
+		case t < 19:
+			ops = append(ops, "pL"+strconv.Itoa(r.Intn(exports+1))+":"+strconv.Itoa(r.Pick(1, 1, 1, 2, 3)))
+		default:
+			if r.Intn(4) == 0 {
+				ops = append(ops, "lZ")
+			}
+		}
+	}
+	return strings.Join(ops, ",")
+}
+
+func genC06(rec *lib.Rec, r *lib.Rng, thorough bool) {
+	n := 300
+	if thorough {
+		n = 8000
+	}
+	n /= Shards
+	for i := 0; i < n; i++ {
+		rec.Op("M", "rpc script "+strconv.Itoa(r.Pick(1, 1, 1, 0))+" "+inboundScript(r, 3+r.Intn(14)), true)
+	}
 }
